@@ -371,7 +371,41 @@ def run_check(prop, tier, seed, replay=None):
 
     # 7. evidence
     discharged = sum(1 for a in aud if a["ok"])
+    # measured counts of the correspondence part of this run
+    evaluations = 0
+    compared = 0
+    for st in stats.values():
+        if isinstance(st, dict):
+            for k in ("cases", "schedules_replayed", "probes", "iterations", "indices_checked"):
+                if isinstance(st.get(k), int):
+                    evaluations += st[k]
+                    break
+            if isinstance(st.get("lines_compared"), int):
+                compared += st["lines_compared"]
+    distinct = set()
+    headers = ("case", "pool", "conc", "cshard", "cthread", "cprefill")
+    try:
+        for root, _dirs, files in os.walk(ctx["work"]):
+          for fn in files:
+            fp = os.path.join(root, fn)
+            if (fn.endswith(".ops") or fn.endswith(".rs")) and os.path.getmtime(fp) >= t0 - 1:
+                if fn.endswith(".rs"):
+                    distinct.add(fn)
+                    continue
+                with open(fp, errors="replace") as f:
+                    for line in f:
+                        if line.split(" ", 1)[0].strip() not in headers and line.strip():
+                            distinct.add(hash(line))
+    except OSError:
+        pass
     cov = {
+        "evaluations": evaluations,
+        "distinct_nontrivial": len(distinct),
+        "rule": "evaluations = generated cases + replayed schedules + compiled probe programs + stress iterations of this run's streams; "
+                "distinct_nontrivial = number of distinct operation / schedule / document lines (scenario and case headers excluded) and distinct probe "
+                "programs written by this run; every one of them is executed on the implementation, checked by the property oracle and (except the "
+                "oracle-only streams: free schedules, stress, very long strings, Miri) compared with the model's answer",
+        "traces_validated_against_impl": compared,
         "obligations": max(len(names), 1),
         "discharged": discharged if names else 0,
         "checker_cmd": f"cd /verif/lean && lake build LassoProofs.{prop} && lake env lean ../work/audit_{prop}.lean   (#print axioms of every theorem of LassoProofs/{prop}.lean)",
